@@ -18,11 +18,7 @@ Theorem C04_bounds_exact :
        In (si_max_frame (s_info s)) (map frame_size_field (s_frames s)) /\
        (forall f, In f (s_frames s) ->
           si_min_frame (s_info s) <= frame_size_field f /\ frame_size_field f <= si_max_frame (s_info s))).
-Proof.
-  intros ent qlpc md5 cfg rate channels bps bs samples s E.
-  destruct (streaminfo_of_encoded ent qlpc md5 _ _ _ _ _ _ _ E) as (_ & _ & _ & _ & _ & H6 & H7 & H8).
-  repeat split; try assumption; apply H8; assumption.
-Qed.
+Proof. exact bounds_exact. Qed.
 Print Assumptions C04_bounds_exact.
 
 Theorem C04_bounds_match_decoded_frames :
